@@ -351,8 +351,30 @@ def run(rep, ctx):
     okh = len(hr) == 6 and "kind()&mask" in hr[0] and hr[1] == "num_values" and hr[2] in ("std::strlen(name)+1", "strlen(name)+1") and \
         hr[3] == "tablen" and hr[4] == "tabNlines" and hr[5] == "name" and ph[0][1] == "suffix {} {} {} {} {}\n{}\n"
     t2.check(okh, "suffix-header-written", short_loc(ph[0][0].get("l")), "written: kind&mask, #values, strlen(name)+1, tablen, tablines, then the name line", str(hr))
+    def _tablines_ok():
+        """the initialiser of tabNlines evaluated on modelled tables (used when it is not the expression of the pinned tree, e.g. a helper)"""
+        vd = [v for v in WS.walk() if v["k"] == "VarDecl" and v.get("name") == "tabNlines" and kids(v)]
+        if len(vd) != 1:
+            return False
+        for tb in ("", "a", "a\nb", "a\n", "\n\n"):
+            def atom_t(t_, n_, env_, tb=tb):
+                if n_["k"] == "CXXMemberCallExpr":
+                    cn = (n_.get("callee") or "").split("::")[-1]
+                    if cn == "empty":
+                        return int(len(tb) == 0)
+                    if cn in ("size", "length"):
+                        return len(tb)
+                return None
+            mi_ = MiniInt(F, atom_t, seq=lambda t_, n_, env_, tb=tb: [ord(ch) for ch in tb])
+            try:
+                got = mi_.expr(kids(vd[0])[0], {}, 0)
+            except AnalysisBroken:
+                return False
+            if got != (0 if not tb else 1 + tb.count("\n")):
+                return False
+        return True
     t2.check(locs.get("num_values") == "counter.num_values()" and locs.get("tablen", "").replace("(int)", "") in ("table.size()?table.size()+1:0",)
-             and locs.get("tabNlines", "").startswith("table.empty()?0:1+") and "count(table.begin(),table.end(),'\\x0a')" in locs.get("tabNlines", ""), "suffix-header-values",
+             and ((locs.get("tabNlines", "").startswith("table.empty()?0:1+") and "count(table.begin(),table.end(),'\\x0a')" in locs.get("tabNlines", "")) or _tablines_ok()), "suffix-header-values",
              short_loc(WS.loc), "#values = number of visited values, tablen = size+1 or 0, tablines = 1 + number of newlines or 0",
              "num_values=%s tablen=%s tabNlines=%s" % (locs.get("num_values"), locs.get("tablen"), locs.get("tabNlines")))
     mk = [v for v in WS.walk() if v["k"] == "VarDecl" and v.get("name") == "mask"]
